@@ -147,6 +147,8 @@ def sym(ctx, cfg):
                 for a, _, ms in mods:
                     jhit["mods"].append(dict(position=ST(a), mass=ST(ms)))
                 for sname in ("xcorr", "expect"):
+                    if sname != "xcorr" and cfg.get("optional_scores") and not bool(ctx.fresh_bool("has_score_" + sname)):
+                        continue  # a score that only some hits of a spectrum report
                     a, v = numatom(sname, real=True)
                     children.append(El("search_score", dict(name=sname, value=a)))
                     jhit["scores"].append(dict(name=sname, value=ST(a)))
@@ -301,6 +303,7 @@ def harnesses(tier):
     add("hit[L=3,mods<=2,alts<=2]", dict(L=3, mods=2, alts=2, shape=[[1]], descr=True))
     add("hit[L=2,mods<=2,alts<=1,optional attrs]", dict(L=2, mods=2, alts=1, shape=[[1]], optional=True))
     add("hit[L=4,mods<=3,alts=0,empty modinfo]", dict(L=4, mods=3, alts=0, shape=[[1]], empty_modinfo=True))
+    add("doc[1 spectrum with 2 hits; optional attributes and scores per hit]", dict(L=2, mods=0, alts=0, shape=[[2]], optional=True, optional_scores=True))
     add("doc[2 runs: 2+1 spectra, hits 2,1,1; L=2,mods<=1,alts<=1]", dict(L=2, mods=1, alts=1, shape=[[2, 1], [1]], rich=[1]))
     for F in ((2,) if tier == "quick" else (2, 3)):
         hs.append(Harness("files[%d files with different score sets]" % F, dict(files=F), sym_files, real="files", functions=[X.read_pepxml, X._parse_pepxml], bounds=dict(files=F, scores=SCORE_NAMES),
@@ -397,6 +400,14 @@ def real_pepxml(cfg, inp):
                     ok = g is not None and (g == v or str(g) == str(v))
                 if not ok:
                     viol = "hit %d: %s = %r, expected %r" % (k, key, g, v)
+                    break
+            if viol:
+                break
+            # a field the hit does not list must be missing (NaN in the frame), not inherited from another hit
+            for key, g in r.items():
+                if key not in e and not (g is None or (isinstance(g, float) and g != g)):
+                    viol = "hit %d (%s) carries %s = %r although the file lists no such attribute / score for it (hits of the same spectrum: %s)" % (
+                        k, e.get("peptide"), key, g, [x.get(key) for x in recs])
                     break
             if viol:
                 break
